@@ -75,7 +75,9 @@ def make_case(seed, i):
         # lambdas (i % 10 == 3: comprehensions too), the imports `as` fresh names at top-level positions - what
         # C02_tidy_remove_preserves_trace_stage2 / _stage3 are about
         prog = c05.to_u2(r, G.gen_program(r, True, classes=False, funcs=True, comps=(i % 10 == 3)))
-        return {"kind": "exec", "i": i, "prog": G.normalise(prog), "ns": [[G.REG, G.DEC]], "params": gen_params(r)}
+        add_docstrings_dx(r, prog, top=True)
+        return {"kind": "exec", "i": i, "prog": G.normalise(prog), "ns": [[G.REG, G.DEC]], "params": gen_params(r),
+                "cli": i % 20 == 3}
     g = G.Gen(r, True, maxdepth=2, mods=MODS2)
     prog = []
     if r.random() < .3:
@@ -167,6 +169,41 @@ def make_case(seed, i):
             prog.insert(k0, r.choice([["from", ["m"], [["d", alias]]], ["import", [[["pkg", "sub"], alias]]]]))
     return {"kind": "exec", "i": i, "prog": G.normalise(prog), "ns": [[G.REG, G.DEC]], "params": gen_params(r),
             "cli": i % 6 == 1}
+
+
+def add_docstrings_dx(r, body, top=False):
+    """docstrings of the fragment of C02_tidy_fix_preserves_trace_stage2 / _stage3 (Fragment.dx_docs): at the head of the
+    module and of def bodies, every doctest example a load-only expression statement (names, attribute chains, calls)
+    that reads the imports of c05.to_u2 (imp1..imp4) or other names; {brace} identifiers from the same pool"""
+    pool = ["imp1", "imp2", "imp3", "imp4"] + G.NAMES[:4]
+
+    def doc():
+        exs = []
+        for _ in range(r.randint(0, 3)):
+            ld = ["load", r.choice(pool), [r.choice(G.ATTRS) for _ in range(r.choice([0, 1, 1, 2]))]]
+            k = r.random()
+            if k < .5:
+                exs.append(["expr", ld])
+            elif k < .8:
+                exs.append(["expr", ["op", "call", [ld, ["load", r.choice(pool), []]]]])
+            else:
+                exs.append(["expr", ["op", "call", [ld, ["op", "esc", []]]]])
+        return ["doc", exs, [r.choice(pool) for _ in range(r.choice([0, 0, 1, 2]))]]
+    for s in list(body):
+        if s[0] == "def":
+            add_docstrings_dx(r, s[5])
+            if r.random() < .4:
+                s[5].insert(0, doc())
+        elif s[0] == "for":
+            add_docstrings_dx(r, s[3]); add_docstrings_dx(r, s[4])
+        elif s[0] in ("while", "if"):
+            add_docstrings_dx(r, s[2]); add_docstrings_dx(r, s[3])
+        elif s[0] == "with":
+            add_docstrings_dx(r, s[2])
+        elif s[0] == "try":
+            add_docstrings_dx(r, s[1]); add_docstrings_dx(r, s[3]); add_docstrings_dx(r, s[4])
+    if top and r.random() < .6:
+        body.insert(0, doc())
 
 
 def gen_docstring(r):
@@ -1211,6 +1248,13 @@ def run_cases(ctx, cases):
         if us >= 1 and not mo.get("unused_ok", True):
             ctx.disagreement("statement check: stage-%d unused_sound is false on this program" % us,
                              {"src": p[0], "ns": c["ns"], "prog": c["prog"], "kind": "free"}, None, None)
+        # the theorems about what tidy really runs (docstrings parsed, trace with doctest examples): fragment 2 / 3 and
+        # every doctest example a load-only expression statement (Fragment.dx_docs)
+        ds = us if (us >= 2 and mo.get("dx", False)) else 0
+        ctx.bump("dfragment:stage%d" % ds if ds else "dfragment:outside")
+        if ds and not mo.get("unused_doc_ok", True):
+            ctx.disagreement("statement check: stage-%d unused_sound (finder_doc / pysem_doc) is false on this program" % ds,
+                             {"src": p[0], "ns": c["ns"], "prog": c["prog"], "kind": "free"}, None, None)
     # phase 2: the reformatted module as a term (closed mode), Finder on it
     ref_cases, ref_idx = [], []
     for k, (c, p, im) in enumerate(zip(cases, prepared, impl)):
@@ -1376,8 +1420,12 @@ def run(ctx):
         "executable programs from one seeded PRNG: 1-3 segments of a top-level import block (1-4 statements: plain / dotted / "
         "aliased / from imports over a 10-name pool, so names collide) followed by statements of the C05 executed stream "
         "(defs, lambdas, classes, comprehensions, loops; every function runs after the module) and attribute reads; "
-        "1 program in 10 is instead generated inside fragment 2 of the unused side (functions and lambdas, imports `as` fresh "
-        "names at top-level positions); the counters ufragment:stage1 / ufragment:stage2 / ufragment:outside are the MEASURED "
+        "2 programs in 10 are instead generated inside fragment 2 / 3 of the unused side (functions and lambdas, comprehensions; imports "
+        "`as` fresh names at top-level positions; docstrings at module level and in def bodies whose doctest examples are load-only "
+        "expression statements, some with invalid escape sequences); dfragment:stageK counts the programs inside the fragment of "
+        "C02_unused_sound_doc_stageK / C02_tidy_fix_preserves_trace_stageK (ufragment K >= 2 and Fragment.dx_docs), each checked "
+        "against that statement (finder_doc vs pysem_doc) by vm_compute; "
+        "the counters ufragment:stage1 / ufragment:stage2 / ufragment:outside are the MEASURED "
         "number of programs inside Fragment.u1_block / u2_block+imports_once / neither - only those inside are covered by "
         "C02_unused_sound_* and the end-to-end theorems, and each of them is also checked against the statement by vm_compute; "
         "non-trivial = an import is reported unused or a block holds more than one import; distinct by hash of the source")
